@@ -547,7 +547,7 @@ impl GRLParser {
 
         // Comments are not part of the text: remove them before the text is cut into rules, so
         // that a `}` or a rule header inside a comment neither ends a rule nor starts one.
-        let uncommented = grl_text
+        let uncommented = Self::strip_block_comments(grl_text)
             .lines()
             .map(Self::strip_line_comment)
             .collect::<Vec<_>>()
@@ -712,11 +712,66 @@ impl GRLParser {
     }
 
     fn clean_text(&self, text: &str) -> String {
-        text.lines()
+        Self::strip_block_comments(text)
+            .lines()
             .map(|line| Self::strip_line_comment(line).trim())
             .filter(|line| !line.is_empty())
             .collect::<Vec<_>>()
             .join(" ")
+    }
+
+    /// Replace every `/* ... */` block comment that starts outside a string literal by a blank
+    /// (line breaks inside the comment are kept, so that the text keeps its lines); an unterminated
+    /// block comment runs to the end of the text. A `/*` inside a string literal or inside a `//`
+    /// comment is not a comment start.
+    fn strip_block_comments(text: &str) -> String {
+        let mut out = String::with_capacity(text.len());
+        let mut quote: Option<char> = None;
+        let mut chars = text.chars().peekable();
+        let mut line_comment = false;
+        while let Some(ch) = chars.next() {
+            if line_comment {
+                if ch == '\n' {
+                    line_comment = false;
+                }
+                out.push(ch);
+                continue;
+            }
+            match quote {
+                Some(q) => {
+                    if ch == q || ch == '\n' {
+                        quote = None;
+                    }
+                    out.push(ch);
+                }
+                None => match ch {
+                    '"' | '\'' => {
+                        quote = Some(ch);
+                        out.push(ch);
+                    }
+                    '/' if chars.peek() == Some(&'/') => {
+                        line_comment = true;
+                        out.push(ch);
+                    }
+                    '/' if chars.peek() == Some(&'*') => {
+                        chars.next();
+                        out.push(' ');
+                        let mut prev_star = false;
+                        for c in chars.by_ref() {
+                            if c == '\n' {
+                                out.push('\n');
+                            }
+                            if prev_star && c == '/' {
+                                break;
+                            }
+                            prev_star = c == '*';
+                        }
+                    }
+                    _ => out.push(ch),
+                },
+            }
+        }
+        out
     }
 
     /// Cut a `//` comment off a line (the whole line, or its tail after some code);
